@@ -33,6 +33,8 @@ type Ev = (u32, u32, u64); // (timer id, k, virtual µs)
 
 /// the message on which the target's handler returns `Err` (the actor FAILS: `ActorFailed`, no `post_stop`)
 const POISON: (u32, u32) = (u32::MAX, u32::MAX);
+/// ... and the message on which it PANICS (ractor catches the panic: same `ActorFailed`)
+const POISON_PANIC: (u32, u32) = (u32::MAX, u32::MAX - 1);
 
 #[derive(Default)]
 struct Shared {
@@ -112,6 +114,9 @@ impl Actor for Target {
         if m == POISON {
             return Err("poison".into());
         }
+        if m == POISON_PANIC {
+            panic!("poison");
+        }
         self.0.handled(m);
         Ok(())
     }
@@ -135,6 +140,9 @@ impl ThreadLocalActor for TlTarget {
     async fn handle(&self, _me: ActorRef<Self::Msg>, m: Self::Msg, ctx: &mut Ctx) -> Result<(), ActorProcessingErr> {
         if m == POISON {
             return Err("poison".into());
+        }
+        if m == POISON_PANIC {
+            panic!("poison");
         }
         ctx.handled(m);
         Ok(())
@@ -358,6 +366,9 @@ enum Op {
     /// cast a message on which the target's handler returns `Err`
     Fail,
     AdvFail(u64),
+    /// the same with a handler that panics
+    FailP,
+    AdvFailP(u64),
 }
 
 impl Op {
@@ -392,6 +403,8 @@ impl Op {
             Op::AdvDrop(d, i) => format!("advdrop {d} {i}"),
             Op::Fail => "fail".into(),
             Op::AdvFail(d) => format!("advfail {d}"),
+            Op::FailP => "failp".into(),
+            Op::AdvFailP(d) => format!("advfailp {d}"),
         }
     }
     fn parse(s: &str) -> Option<Op> {
@@ -428,6 +441,8 @@ impl Op {
             "advdrop" => Op::AdvDrop(n(1)?, n(2)? as usize),
             "fail" => Op::Fail,
             "advfail" => Op::AdvFail(n(1)?),
+            "failp" => Op::FailP,
+            "advfailp" => Op::AdvFailP(n(1)?),
             _ => return None,
         })
     }
@@ -651,6 +666,16 @@ async fn run_case(tl: bool, ops: &[Op]) -> Vec<String> {
             }
             Op::Fail => {
                 let _ = target.cast(POISON);
+            }
+            Op::FailP => {
+                let _ = target.cast(POISON_PANIC);
+            }
+            Op::AdvFailP(d) => {
+                bump_clock(*d).await;
+                let _ = target.cast(POISON_PANIC);
+                if let Some(w) = tlw.as_mut() {
+                    w.run_target(now_ms(t0));
+                }
             }
             Op::AdvFail(d) => {
                 bump_clock(*d).await;
@@ -901,14 +926,26 @@ fn gen_case(rng: &mut Rng, st: &mut Stats) -> Vec<Op> {
             match rng.below(4) {
                 0 => Op::AdvStop(*rng.pick(&adv)),
                 1 => Op::AdvKill(*rng.pick(&adv)),
-                2 => Op::AdvFail(*rng.pick(&adv)),
+                2 => {
+                    if rng.chance(1, 2) {
+                        Op::AdvFail(*rng.pick(&adv))
+                    } else {
+                        Op::AdvFailP(*rng.pick(&adv))
+                    }
+                }
                 _ => Op::AdvDrain(*rng.pick(&adv)),
             }
         } else {
             match rng.below(4) {
                 0 => Op::Stop,
                 1 => Op::Kill,
-                2 => Op::Fail,
+                2 => {
+                    if rng.chance(1, 2) {
+                        Op::Fail
+                    } else {
+                        Op::FailP
+                    }
+                }
                 _ => Op::Drain,
             }
         };
@@ -944,6 +981,7 @@ fn ms_case(ops: Vec<Op>) -> Vec<Op> {
             AdvDrain(d) => AdvDrain(d * 1000),
             AdvDrop(d, i) => AdvDrop(d * 1000, i),
             AdvFail(d) => AdvFail(d * 1000),
+            AdvFailP(d) => AdvFailP(d * 1000),
             o => o,
         })
         .collect()
@@ -1044,6 +1082,9 @@ fn fixed_cases() -> Vec<Vec<Op>> {
         vec![Xsa(2), Xsi(1), Fail, Adv(2)],
         vec![Sa(2), Si(1), Drop(0), Drop(1), Fail, Adv(2)],
         vec![Dsa(5), Dsi(3), Csa(5), AdvFail(3), Adv(2), Adv(3)],
+        vec![Sa(5), FailP, Adv(5)],
+        vec![Si(3), Adv(3), AdvFailP(3), Adv(3)],
+        vec![Hold, Ea(2), Si(1), FailP, Adv(2), PsRelease],
         // send_interval(Duration::ZERO): tokio's interval() panics inside the spawned task
         vec![Si(0)],
         vec![Dsi(0)],
@@ -1157,7 +1198,7 @@ fn main() {
     // `send_interval(Duration::ZERO)` panics inside its task (tokio turns it into a JoinError): keep stderr readable
     let default_hook = std::panic::take_hook();
     std::panic::set_hook(Box::new(move |info| {
-        let quiet = info.payload().downcast_ref::<&str>().map(|m| m.contains("must be non-zero")).unwrap_or(false)
+        let quiet = info.payload().downcast_ref::<&str>().map(|m| m.contains("must be non-zero") || *m == "poison").unwrap_or(false)
             || info.payload().downcast_ref::<String>().map(|m| m.contains("must be non-zero")).unwrap_or(false);
         if !quiet {
             default_hook(info);
